@@ -211,6 +211,48 @@ contract('Batching._run_model_for_search',
                   'user code) is checked natively / under C15'])
 
 
+# ---- the body of _run_model_for_search itself (grid_search sees it through the abstract contract above)
+USER_RUN_MODS = ['fieldall:timestep', 'new:list[ref:System]', 'fieldall:_status', 'store:dict[str,ref:Agent]',
+                 'store:dict[cls,ref:Component]', 'store:dict[cls,list[ref:Component]]', 'store:list[ref:Component]',
+                 'fieldall:tag', 'ghost:runs', 'ghost:last', 'store:dict[str,ref:System]', 'store:list[ref:System]']
+
+
+def search_site_step(model_cls, score_func, repetitions, parameters, max_timesteps, model):
+    """No repetition advances past the step limit or past its own completion."""
+    return running(model) and model.systems.timestep < max_timesteps
+
+
+def search_site_scored(model_cls, score_func, repetitions, parameters, max_timesteps, model):
+    """A repetition is scored only once it has completed or used up the *whole* step limit - every repetition anew."""
+    return not running(model) or model.systems.timestep >= max_timesteps
+
+
+def search_reps_inv(model_cls, score_func, repetitions, parameters, max_timesteps, old, _, records):
+    return (0 <= _ and _ <= max(repetitions, 0) and len(records) == _ and is_fresh(records, old)
+            and all(k in parameters and same(parameters[k], old.parameters[k]) for k in old.parameters)
+            and all(k in old.parameters for k in parameters))
+
+
+def search_run_inv(model_cls, score_func, repetitions, parameters, max_timesteps, old, records, _):
+    return (is_fresh(records, old) and len(records) == _
+            and all(k in parameters and same(parameters[k], old.parameters[k]) for k in old.parameters)
+            and all(k in old.parameters for k in parameters))
+
+
+contract('Batching._run_model_for_search', variant='body',
+         params={'model_cls': 'any', 'score_func': 'any', 'repetitions': 'int', 'parameters': 'dict[str,any]',
+                 'max_timesteps': 'int'}, returns='dict[str,any]',
+         ensures={'C16': [run_for_search_post]},
+         modifies=['parameters', 'new:list[any]', 'ghost:n_built'] + USER_RUN_MODS,
+         locals={'model': 'ref:Model', 'records': 'list[any]'}, roles={'records': 'emptylist#0'},
+         sites={'execute#*': dict(**{'assert': [search_site_step]}),
+                'score_func#*': dict(**{'assert': [search_site_scored]})},
+         loops={0: dict(invariant=[(search_reps_inv, ['C16'])], index='_', modifies=['records', 'new:list[any]', 'ghost:n_built'] + USER_RUN_MODS),
+                1: dict(invariant=[(search_run_inv, ['C16'])], modifies=USER_RUN_MODS)},
+         assume_callee_pre=['Core.Model.execute'], native=False, props=['C16'],
+         assumes=['model_cls(**parameters) and score_func(model) are user code; a fresh model is well formed'])
+
+
 def search_serial_inv(parameters, mode, old, i, simulation_kwargs, results):
     return (0 <= i and i <= len(simulation_kwargs) and len(results) == i and is_fresh(results, old)
             and all(same_obj(results[j], simulation_kwargs[j]) and 'records' in results[j] for j in range(0, i)))
@@ -300,7 +342,8 @@ contract('Batching._run_model_for_batch', variant='nocollector',
                                               'store:list[ref:Component]', 'fieldall:tag', 'ghost:runs', 'ghost:last'],
          locals={'model': 'ref:Model'},
          ghost_init='batch_init',
-         sites={0: dict(**{'assert': [site_build]}, effect='model_built'), 2: dict(**{'assert': [site_step]})},
+         sites={'_build_model_from_kwargs#*': dict(**{'assert': [site_build]}, effect='model_built'),
+                'execute#*': dict(**{'assert': [site_step]})},
          loops={0: dict(invariant=[(run_batch_inv, ['C15'])], modifies=[
              'fieldall:timestep', 'new:list[ref:System]', 'fieldall:_status', 'store:dict[str,ref:Agent]',
              'store:dict[cls,ref:Component]', 'store:dict[cls,list[ref:Component]]', 'store:list[ref:Component]',
@@ -325,7 +368,8 @@ contract('Batching._run_model_for_batch', variant='collector',
                    'store:list[ref:Component]', 'fieldall:tag', 'ghost:runs', 'ghost:last'],
          locals={'model': 'ref:Model'},
          ghost_init='batch_init',
-         sites={0: dict(**{'assert': [site_build]}, effect='model_built'), 2: dict(**{'assert': [site_step]})},
+         sites={'_build_model_from_kwargs#*': dict(**{'assert': [site_build]}, effect='model_built'),
+                'execute#*': dict(**{'assert': [site_step]})},
          loops={0: dict(invariant=[(run_batch_inv, ['C15'])], modifies=[
              'fieldall:timestep', 'new:list[ref:System]', 'fieldall:_status', 'store:dict[str,ref:Agent]',
              'store:dict[cls,ref:Component]', 'store:dict[cls,list[ref:Component]]', 'store:list[ref:Component]',
